@@ -123,7 +123,12 @@ func rebootBlob(key string, complete bool, pather *pather) (res *rebootedBlob, o
 	blobPath := pather.blobPath(key, complete)
 	fInfo, err := os.Stat(blobPath)
 	if errors.Is(err, os.ErrNotExist) {
-		// The directory for the blob exists but not the blob itself.
+		// The directory for the blob exists but not the blob itself (e.g. the
+		// process died while removing or creating it). Drop what is left: a
+		// left-over directory would keep the key from being completed again.
+		if err := os.RemoveAll(pather.dirPath(key, complete)); err != nil {
+			return nil, false, fmt.Errorf("remove remains of a partially removed blob: %w", err)
+		}
 		return nil, false, nil
 	}
 	if err != nil {
